@@ -237,6 +237,27 @@ def _fixture_provenance(ctx):
 def _validate(ctx):
     run, prog = ctx.run, ctx.prog
     cmc = prog.func(PROC, 'check_multiclient_cfg')
+    # decided on scenario models when create_dzn_elements (with check_multiclient_cfg and whatever helpers it is organised
+    # into) can be interpreted; the shape rules below decide otherwise
+    from .shared import dzn_elements_by_interpretation
+    sem = dzn_elements_by_interpretation(ctx)
+    if sem is not None:
+        probs = sem['C04.validate'] + sem['C13.rejects']
+        aspects = [('a valid multi-client configuration', ('a valid multi-client configuration', 'the fixture does not hold', 'gets no fixture')),
+                   ('names the requires port', ('names the requires port',)), ('names a port that does not exist', ('names a port that does not exist',)),
+                   ('unknown claim event', ('names a claim event the interface does not have',)),
+                   ('unknown release event', ('names a release event the interface does not have',)),
+                   ('granting value not in the enum', ('names a granting value',)), ('claim event replying void', ('replies void',)),
+                   ('multi-client on an STS port', ('STS semantics',)),
+                   ('fixture only on the named provides port', ('does not name gets', 'requires port gets', 'although none is configured'))]
+        for label, keys in aspects:
+            mine = [p_ for p_ in probs if any(k in p_ for k in keys)]
+            run.add('C04.validate', MOD, 'create_dzn_elements', label, not mine,
+                    f'{label}: decided by interpretation of create_dzn_elements on the scenario models - accepted with the configured events / '
+                    f'refused with the documented error' if not mine else '; '.join(mine[:2]))
+        run.stats['validate_decided_by'] = f'interpretation of create_dzn_elements on {sem["#"][0]} scenario models (E7)'
+        run.floor('C04.validate', 8)
+        return
     cfg_cls = prog.cls('adv_shell.port_selection', 'MultiClientPortCfg')
     fields = set(prog.class_fields(cfg_cls).keys())
     cfgp = cmc.params()[0].arg
